@@ -30,6 +30,11 @@ Lemma gen_send_rejection_cong : forall se se' sr sr',
   forall s t, gen_send_rejection se sr s t = gen_send_rejection se' sr' s t.
 Proof. intros se se' sr sr' H1 H2 s t. unfold gen_send_rejection. cong. Qed.
 
+Lemma gen_start_titan_upload_cong : forall se se',
+  (forall s z m, se s z m = se' s z m) ->
+  forall mw up ip fp uc s, gen_start_titan_upload se mw up ip fp uc s = gen_start_titan_upload se' mw up ip fp uc s.
+Proof. intros se se' H1 mw up ip fp uc s. unfold gen_start_titan_upload. cong. Qed.
+
 Lemma gen_process_titan_upload_cong : forall se se' su su',
   (forall s z m, se s z m = se' s z m) -> (forall s, su s = su' s) ->
   forall mw up ip fp s, gen_process_titan_upload se su mw up ip fp s = gen_process_titan_upload se' su' mw up ip fp s.
@@ -87,10 +92,11 @@ Hypothesis reenc_ok : forall m, (1024 < N.of_nat (length (encode_replace m)))%N 
 Variable ip6 : str -> option str.
 Variable handler : str -> hres.
 Variable mw up : bool.
+Variable ucf : option str.
 Variable ip : str.
 Variable fp : option str.
 
-Notation cl f := (f reenc ip6 handler mw up ip fp).
+Notation cl f := (f reenc ip6 handler mw up (upcall_of ucf) ip fp).
 
 Lemma cl_send_response_eq : forall s r, cl cl_send_response s r = send_response s r.
 Proof. intros s r. unfold cl_send_response. apply EquivServer2_proofs.send_response_tie. exact reenc_ok. Qed.
@@ -108,17 +114,20 @@ Proof.
   apply EquivServer2_proofs.send_rejection_tie.
 Qed.
 
-Lemma cl_start_titan_upload_eq : forall s, cl cl_start_titan_upload s = start_upload up s.
-Proof. intros s. unfold cl_start_titan_upload. apply EquivServer_proofs.start_titan_upload_tie. Qed.
+Lemma cl_start_titan_upload_eq : forall s, cl cl_start_titan_upload s = start_upload up ucf s.
+Proof.
+  intros s. unfold cl_start_titan_upload.
+  rewrite (gen_start_titan_upload_cong _ _ cl_send_error_eq). apply EquivServer_proofs.start_titan_upload_tie.
+Qed.
 
-Lemma cl_process_titan_upload_eq : forall s, cl cl_process_titan_upload s = process_titan_upload mw up ip fp s.
+Lemma cl_process_titan_upload_eq : forall s, cl cl_process_titan_upload s = process_titan_upload mw up ucf ip fp s.
 Proof.
   intros s. unfold cl_process_titan_upload.
   rewrite (gen_process_titan_upload_cong _ _ _ _ cl_send_error_eq cl_start_titan_upload_eq).
   apply EquivServer_proofs.process_titan_upload_tie.
 Qed.
 
-Lemma cl_handle_titan_url_eq : forall s u, cl cl_handle_titan_url s u = handle_titan_url ip6 mw up ip fp s u.
+Lemma cl_handle_titan_url_eq : forall s u, cl cl_handle_titan_url s u = handle_titan_url ip6 mw up ucf ip fp s u.
 Proof.
   intros s u. unfold cl_handle_titan_url.
   rewrite (gen_handle_titan_url_cong _ _ _ _ cl_send_error_eq cl_process_titan_upload_eq).
@@ -140,7 +149,7 @@ Proof.
   apply EquivServer2_proofs.handle_gemini_request_tie.
 Qed.
 
-Lemma cl_data_received_eq : forall s d, cl cl_data_received s d = data_received ip6 handler mw up ip fp s d.
+Lemma cl_data_received_eq : forall s d, cl cl_data_received s d = data_received ip6 handler mw up ucf ip fp s d.
 Proof.
   intros s d. unfold cl_data_received.
   rewrite (gen_data_received_cong _ _ _ _ _ _ _ _ cl_send_error_eq cl_handle_titan_url_eq cl_handle_gemini_eq
@@ -159,7 +168,7 @@ Qed.
 
 Lemma cl_handle_titan_middleware_result_eq : forall s t,
   cl cl_handle_titan_middleware_result s t
-  = gen_handle_titan_middleware_result send_error send_rejection (start_upload up) s t.
+  = gen_handle_titan_middleware_result send_error send_rejection (start_upload up ucf) s t.
 Proof.
   intros s t. unfold cl_handle_titan_middleware_result.
   apply gen_handle_titan_middleware_result_cong;
@@ -183,11 +192,11 @@ Qed.
 (* ---------- 3. the loop ---------- *)
 
 Lemma gen_feed_eq : forall slices s,
-  gen_feed reenc ip6 handler mw up ip fp s slices = feed ip6 handler mw up ip fp s slices.
+  gen_feed reenc ip6 handler mw up ucf ip fp s slices = feed ip6 handler mw up ucf ip fp s slices.
 Proof.
   induction slices as [|d r IH]; intros s; [reflexivity|].
   cbn [gen_feed feed]. rewrite cl_data_received_eq.
-  destruct (data_received ip6 handler mw up ip fp s d) as [s1 a1]. rewrite IH. reflexivity.
+  destruct (data_received ip6 handler mw up ucf ip fp s d) as [s1 a1]. rewrite IH. reflexivity.
 Qed.
 
 (* the request object re-created from the line kept in the pending list carries that line *)
@@ -198,7 +207,7 @@ Proof.
 Qed.
 
 Lemma gen_task_done_eq : forall s id o,
-  gen_task_done reenc ip6 handler mw up ip fp s id o = task_done handler up s id o.
+  gen_task_done reenc ip6 handler mw up ucf ip fp s id o = task_done handler up ucf s id o.
 Proof.
   intros s0 id o. unfold gen_task_done.
   destruct (take_task id (pending s0)) as [[k|] rest] eqn:T.
@@ -207,53 +216,53 @@ Proof.
   destruct k as [line|line| |].
   - assert (T' : take_task id (pending s0) = (Some (TMw (rq_line (req_of_line ip6 line))), rest))
       by (rewrite rq_line_req_of_line; exact T).
-    destruct (EquivServer2_proofs.handle_middleware_result_tie handler up s0 id _ rest T') as [A B].
+    destruct (EquivServer2_proofs.handle_middleware_result_tie handler up ucf s0 id _ rest T') as [A B].
     destruct o as [r|m|a t|]; try reflexivity.
     + rewrite cl_handle_middleware_result_eq. symmetry. apply B.
     + rewrite cl_handle_middleware_result_eq. symmetry. apply A.
   - assert (T' : take_task id (pending s0) = (Some (THandler (rq_line (req_of_line ip6 line))), rest))
       by (rewrite rq_line_req_of_line; exact T).
-    destruct (EquivServer2_proofs.handle_async_handler_result_tie handler up s0 id _ rest T') as [A B].
+    destruct (EquivServer2_proofs.handle_async_handler_result_tie handler up ucf s0 id _ rest T') as [A B].
     destruct o as [r|m|a t|]; try reflexivity.
     + rewrite cl_handle_async_handler_result_eq. symmetry. apply A.
     + rewrite cl_handle_async_handler_result_eq. symmetry. apply B.
-  - destruct (EquivServer2_proofs.handle_titan_middleware_result_tie handler up s0 id rest T) as [A B].
+  - destruct (EquivServer2_proofs.handle_titan_middleware_result_tie handler up ucf s0 id rest T) as [A B].
     destruct o as [r|m|a t|]; try reflexivity.
     + rewrite cl_handle_titan_middleware_result_eq. symmetry. apply B.
     + rewrite cl_handle_titan_middleware_result_eq. symmetry. apply A.
-  - destruct (EquivServer2_proofs.handle_titan_upload_result_tie handler up s0 id rest T) as [A B].
+  - destruct (EquivServer2_proofs.handle_titan_upload_result_tie handler up ucf s0 id rest T) as [A B].
     destruct o as [r|m|a t|]; try reflexivity.
     + rewrite cl_handle_titan_upload_result_eq. symmetry. apply A.
     + rewrite cl_handle_titan_upload_result_eq. symmetry. apply B.
 Qed.
 
 Lemma gen_step_eq : forall s e,
-  gen_step reenc ip6 handler mw up ip fp s e = step ip6 handler mw up ip fp s e.
+  gen_step reenc ip6 handler mw up ucf ip fp s e = step ip6 handler mw up ucf ip fp s e.
 Proof.
   intros s e. destruct e as [slices| |id o|].
   - cbn [gen_step step]. rewrite gen_feed_eq. reflexivity.
   - destruct (timer s) eqn:T.
-    + rewrite (EquivServer_proofs.handle_timeout_tie ip6 handler mw up ip fp s T).
+    + rewrite (EquivServer_proofs.handle_timeout_tie ip6 handler mw up ucf ip fp s T).
       cbn [gen_step]. rewrite T. reflexivity.
     + cbn [gen_step step]. rewrite T. reflexivity.
     + cbn [gen_step step]. rewrite T. reflexivity.
   - cbn [gen_step step]. apply gen_task_done_eq.
   - destruct (tr s) eqn:T.
-    + rewrite (EquivServer_proofs.connection_lost_tie ip6 handler mw up ip fp s T).
+    + rewrite (EquivServer_proofs.connection_lost_tie ip6 handler mw up ucf ip fp s T).
       cbn [gen_step]. rewrite T. reflexivity.
     + cbn [gen_step step]. rewrite T. reflexivity.
 Qed.
 
 Lemma gen_run_eq : forall evs s,
-  gen_run reenc ip6 handler mw up ip fp s evs = run ip6 handler mw up ip fp s evs.
+  gen_run reenc ip6 handler mw up ucf ip fp s evs = run ip6 handler mw up ucf ip fp s evs.
 Proof.
   induction evs as [|e r IH]; intros s; [reflexivity|].
   cbn [gen_run run]. rewrite gen_step_eq.
-  destruct (step ip6 handler mw up ip fp s e) as [s' a]. rewrite IH. reflexivity.
+  destruct (step ip6 handler mw up ucf ip fp s e) as [s' a]. rewrite IH. reflexivity.
 Qed.
 
 Lemma gen_final_eq : forall evs s,
-  gen_final reenc ip6 handler mw up ip fp s evs = final ip6 handler mw up ip fp s evs.
+  gen_final reenc ip6 handler mw up ucf ip fp s evs = final ip6 handler mw up ucf ip fp s evs.
 Proof.
   induction evs as [|e r IH]; intros s; [reflexivity|].
   cbn [gen_final final]. rewrite gen_step_eq. apply IH.
@@ -265,29 +274,29 @@ End Ties.
 Lemma cl_data_received_tie : forall reenc : str -> str,
   (forall m, (1024 < N.of_nat (length (encode_replace m)))%N ->
              reenc (take 1024 (encode_replace m)) = encode_replace_upto 1024 m) ->
-  forall ip6 handler mw up ip fp s d,
-  cl_data_received reenc ip6 handler mw up ip fp s d = data_received ip6 handler mw up ip fp s d.
+  forall ip6 handler mw up ucf ip fp s d,
+  cl_data_received reenc ip6 handler mw up (upcall_of ucf) ip fp s d = data_received ip6 handler mw up ucf ip fp s d.
 Proof. exact cl_data_received_eq. Qed.
 
 Lemma gen_step_tie : forall reenc : str -> str,
   (forall m, (1024 < N.of_nat (length (encode_replace m)))%N ->
              reenc (take 1024 (encode_replace m)) = encode_replace_upto 1024 m) ->
-  forall ip6 handler mw up ip fp s e,
-  gen_step reenc ip6 handler mw up ip fp s e = step ip6 handler mw up ip fp s e.
+  forall ip6 handler mw up ucf ip fp s e,
+  gen_step reenc ip6 handler mw up ucf ip fp s e = step ip6 handler mw up ucf ip fp s e.
 Proof. exact gen_step_eq. Qed.
 
 Lemma gen_run_tie : forall reenc : str -> str,
   (forall m, (1024 < N.of_nat (length (encode_replace m)))%N ->
              reenc (take 1024 (encode_replace m)) = encode_replace_upto 1024 m) ->
-  forall ip6 handler mw up ip fp evs s,
-  gen_run reenc ip6 handler mw up ip fp s evs = run ip6 handler mw up ip fp s evs.
+  forall ip6 handler mw up ucf ip fp evs s,
+  gen_run reenc ip6 handler mw up ucf ip fp s evs = run ip6 handler mw up ucf ip fp s evs.
 Proof. exact gen_run_eq. Qed.
 
 Lemma gen_final_tie : forall reenc : str -> str,
   (forall m, (1024 < N.of_nat (length (encode_replace m)))%N ->
              reenc (take 1024 (encode_replace m)) = encode_replace_upto 1024 m) ->
-  forall ip6 handler mw up ip fp evs s,
-  gen_final reenc ip6 handler mw up ip fp s evs = final ip6 handler mw up ip fp s evs.
+  forall ip6 handler mw up ucf ip fp evs s,
+  gen_final reenc ip6 handler mw up ucf ip fp s evs = final ip6 handler mw up ucf ip fp s evs.
 Proof. exact gen_final_eq. Qed.
 
 Print Assumptions gen_step_tie.
